@@ -197,11 +197,13 @@ def gen_top(rng, kind):
         return ('call',)
     if k < 0.52:
         return ('direct', rng.choice(['forward', 'st', 'obs', 'read']))
+    # values repeat often, so that a time tensor the caller keeps is assigned more than once
+    tv = lambda: rng.choice([0, 3, 7]) if rng.random() < 0.6 else rng.randint(-8, 40)
     if k < 0.66:
-        return ('reset', rng.randint(-8, 40), rng.random() < 0.4)
+        return ('reset', tv(), rng.random() < 0.4)
     if k < 0.80:
-        return ('settime', rng.randint(-8, 40), rng.random() < 0.5)
-    return ('setref', None if rng.random() < 0.3 else rng.randint(-8, 40))
+        return ('settime', tv(), rng.random() < 0.5)
+    return ('setref', None if rng.random() < 0.3 else tv())
 
 
 def mk_system(pp, torch, kind):
@@ -219,8 +221,17 @@ def mk_system(pp, torch, kind):
     return s, torch.tensor([0.5, -1.0], dtype=f64), torch.tensor([0.25], dtype=f64)
 
 
-def apply_top(torch, kind, s, x, u, o):
-    """execute one time-machine op on the real object; returns True iff it raised"""
+def apply_top(torch, kind, s, x, u, o, cache=None):
+    """execute one time-machine op on the real object; returns True iff it raised (or changed a time
+    tensor owned by the caller).  Time tensors handed to reset / systime / set_refpoint are kept alive
+    in `cache` and REUSED whenever the same value is assigned again, as a caller holding on to its
+    tensors would: an implementation that aliases them instead of copying their value is then visible."""
+    cache = {} if cache is None else cache
+
+    def tt(v):
+        if v not in cache:
+            cache[v] = torch.tensor(v)
+        return cache[v]
     try:
         k = o[0]
         if k == 'call':
@@ -238,14 +249,14 @@ def apply_top(torch, kind, s, x, u, o):
                 if kind != 'NLS':
                     s.A, s.B, s.C, s.D, s.c1, s.c2
         elif k == 'reset':
-            s.reset(torch.tensor(o[1]) if o[2] else o[1])
+            s.reset(tt(o[1]) if o[2] else o[1])
         elif k == 'settime':
-            s.systime = torch.tensor(o[1]) if o[2] else o[1]
+            s.systime = tt(o[1]) if o[2] else o[1]
         else:
-            t = None if o[1] is None else torch.tensor(o[1])
+            t = None if o[1] is None else tt(o[1])
             r = s.set_refpoint(x, u, t)
             assert r is s
-        return False
+        return any(int(v) != key for key, v in cache.items())
     except Exception:
         return True
 
@@ -254,8 +265,9 @@ def run_time_impl(pp, torch, kind, t0, ops):
     s, x, u = mk_system(pp, torch, kind)
     s.reset(t0)
     tr = []
+    cache = {}
     for o in ops:
-        raised = apply_top(torch, kind, s, x, u, o)
+        raised = apply_top(torch, kind, s, x, u, o, cache)
         tr.append((int(s.systime), raised))
     return tr
 
